@@ -3,6 +3,7 @@ package main
 import (
 	"fmt"
 	"sort"
+	"strings"
 
 	"golang.org/x/tools/go/ssa"
 )
@@ -198,6 +199,75 @@ func rulesC13(p *Prog, r *Report) {
 				}
 			}
 			r.OK("R13.2", construct, "movement needs "+g.Name+" for the same amount", p.instrPos(c))
+		}
+	}
+
+	// R13.9 ------------------------------------------------------------------------
+	// UpdateCollector is handed the four fee parts that were just paid in; what it adds to the
+	// net fees is their sum, each part once, and nothing read back from the stored counters.
+	r.Rule("R13.9", "UpdateCollector raises the net fees by the sum of exactly its fee parameters", 1)
+	{
+		var amtParams []string
+		for _, pr := range updC.Params {
+			if strings.HasSuffix(pr.Type().String(), "math.Int") {
+				amtParams = append(amtParams, "p:"+pr.Name())
+			}
+		}
+		sort.Strings(amtParams)
+		n := 0
+		for _, c := range calls(updC) {
+			if !p.callIsFn(c, inc) {
+				continue
+			}
+			args := callArgs(c)
+			if len(args) < 4 {
+				continue
+			}
+			n++
+			r.Instance("R13.9")
+			r.FuncsSeen[fname(updC)] = true
+			construct := fmt.Sprintf("%s net-fee increase #%d", fname(updC), n)
+			var leaves []string
+			var flat func(v ssa.Value, d int)
+			flat = func(v ssa.Value, d int) {
+				if op, recv, x, ok := addSubOf(v); ok && op == "Add" && d < 8 {
+					flat(recv, d+1)
+					flat(x, d+1)
+					return
+				}
+				k := p.ExprKey(v)
+				// a stored-then-loaded parameter (newCollector.X = param) resolves to the parameter;
+				// a sum hidden in the key (old.Add(param)) is split as well
+				for strings.HasPrefix(k, "cosmossdk.io/math.Int.Add(") && strings.HasSuffix(k, ")") {
+					inner := k[len("cosmossdk.io/math.Int.Add(") : len(k)-1]
+					depth, cut := 0, -1
+					for i, ch := range inner {
+						switch ch {
+						case '(':
+							depth++
+						case ')':
+							depth--
+						case ',':
+							if depth == 0 && cut < 0 {
+								cut = i
+							}
+						}
+					}
+					if cut < 0 {
+						break
+					}
+					leaves = append(leaves, inner[:cut])
+					k = inner[cut+1:]
+				}
+				leaves = append(leaves, k)
+			}
+			flat(args[3], 0)
+			sort.Strings(leaves)
+			if strings.Join(leaves, ",") == strings.Join(amtParams, ",") {
+				r.OK("R13.9", construct, "sum of the fee parameters, each once", p.instrPos(c))
+			} else {
+				r.Fail("R13.9", construct, fmt.Sprintf("the net fees are raised by %v, which is not the sum of the fee amounts handed in %v: recorded net fees drift away from what was paid into the collector", leaves, amtParams), p.instrPos(c), nil)
+			}
 		}
 	}
 
